@@ -4,6 +4,7 @@ CONSTANTS
   NC = 3
   NTP = 1
   NT = 0
+  MaxHeads = 3
   MaxWants = 2
   Modes = {"single", "multi", "detailed"}
   IncTag = {FALSE}
